@@ -1,0 +1,91 @@
+//go:build verif
+// +build verif
+
+package ledgerstore
+
+import (
+	"github.com/polynetwork/poly/common"
+	"github.com/polynetwork/poly/core/types"
+)
+
+// Verification hooks (build tag `verif` only): crash points inside submitBlock and read-only accessors
+// for the state a restart has to reconstruct. Nothing here is compiled into normal builds.
+
+// VerifCrashAt selects the crash point at which submitBlock stops (by panicking with VerifCrash):
+// 0 = all batches filled, nothing committed; 1 = block store committed; 2 = block and event store
+// committed; 3 = all three committed, in-memory tip not yet updated. -1 = never.
+var VerifCrashAt = -1
+
+// VerifCrash is the panic value raised at the selected crash point.
+type VerifCrash struct{ Point int }
+
+func verifCrashPoint(k int) {
+	if VerifCrashAt == k {
+		VerifCrashAt = -1
+		panic(VerifCrash{Point: k})
+	}
+}
+
+// VerifStateCurrentBlock returns the current block recorded in the state store.
+func (this *LedgerStoreImp) VerifStateCurrentBlock() (common.Uint256, uint32, error) {
+	return this.stateStore.GetCurrentBlock()
+}
+
+// VerifEventCurrentBlock returns the current block recorded in the event store.
+func (this *LedgerStoreImp) VerifEventCurrentBlock() (common.Uint256, uint32, error) {
+	return this.eventStore.GetCurrentBlock()
+}
+
+// VerifBlockCurrentBlock returns the current block recorded in the block store.
+func (this *LedgerStoreImp) VerifBlockCurrentBlock() (common.Uint256, uint32, error) {
+	return this.blockStore.GetCurrentBlock()
+}
+
+// VerifBlockTree returns size and root of the in-memory block-hash accumulator and the size persisted
+// in the state store.
+func (this *LedgerStoreImp) VerifBlockTree() (memSize uint32, memRoot common.Uint256, storedSize uint32, err error) {
+	memSize = this.stateStore.merkleTree.TreeSize()
+	memRoot = this.stateStore.merkleTree.Root()
+	storedSize, _, err = this.stateStore.GetBlockMerkleTree()
+	return
+}
+
+// VerifStateTree returns size and root of the in-memory state-change accumulator and the persisted size.
+func (this *LedgerStoreImp) VerifStateTree() (memSize uint32, memRoot common.Uint256, storedSize uint32, err error) {
+	memSize = this.stateStore.deltaMerkleTree.TreeSize()
+	memRoot = this.stateStore.deltaMerkleTree.Root()
+	storedSize, _, err = this.stateStore.GetStateMerkleTree()
+	return
+}
+
+// VerifStorageRaw reads a raw key of the state store (nil, nil when absent).
+func (this *LedgerStoreImp) VerifStorageRaw(key []byte) ([]byte, error) {
+	return this.stateStore.NewOverlayDB().Get(key)
+}
+
+// VerifPeerInfo returns copies of the validator sets tracked for headers and for blocks.
+func (this *LedgerStoreImp) VerifPeerInfo() (header map[string]uint32, block map[string]uint32) {
+	this.lock.RLock()
+	defer this.lock.RUnlock()
+	header = make(map[string]uint32, len(this.vbftPeerInfoheader))
+	for k, v := range this.vbftPeerInfoheader {
+		header[k] = v
+	}
+	block = make(map[string]uint32, len(this.vbftPeerInfoblock))
+	for k, v := range this.vbftPeerInfoblock {
+		block[k] = v
+	}
+	return
+}
+
+// VerifVerifyHeader exposes verifyHeader (no state is changed).
+func (this *LedgerStoreImp) VerifVerifyHeader(header *types.Header, peers map[string]uint32) (map[string]uint32, error) {
+	return this.verifyHeader(header, peers)
+}
+
+// VerifHeaderCacheLen returns the number of headers waiting in the header cache.
+func (this *LedgerStoreImp) VerifHeaderCacheLen() int {
+	this.lock.RLock()
+	defer this.lock.RUnlock()
+	return len(this.headerCache)
+}
